@@ -103,7 +103,11 @@ def run(ctx):
         a = [W.expand(x) for x in sev.call_args(mb)]
         srep_args = [x for x in a[1:] if values.contains(x, lambda y: is_call(y) and sm.MAKE_SREP.endswith(strip_generics(y[1]).split("::")[-1]) and "make_srep" in y[1]) or
                      values.contains(x, lambda y: isinstance(y, tuple) and y and y[0] == "field" and "srep" in str(y[2]).lower())]
-        fresh = bool(calls) and any(values.strip_payload(x) == sev.call_term(calls[0]) or x == sev.call_term(calls[0]) for x in a[1:])
+        # the SREP message itself, or fields taken from it (`srep.get_field(SIG)` looked up once per batch and passed down)
+        ct0 = sev.call_term(calls[0]) if calls else None
+        from_this = [x for x in a[1:] if ct0 is not None and (x == ct0 or values.contains(x, lambda y: y == ct0))]
+        other_srep = [x for x in a[1:] if x not in from_this and values.contains(x, lambda y: isinstance(y, tuple) and y and y[0] == "field" and "srep" in str(y[2]).lower())]
+        fresh = bool(from_this) and not other_srep
         ctx.check("clock", "responses-carry-this-batchs-SREP", fresh, "make_response is given the SREP returned by this invocation's make_srep(.., now, ..)",
                   "the SREP put into responses is %s: it can be one signed for an earlier batch, whose midpoint is not the clock reading of this batch" % [fmt(x)[:160] for x in srep_args[:2]], sr.loc(mb))
     ctx.floor("clock", len(mrs), 1, "make_response calls in send_responses")
